@@ -14,7 +14,7 @@
    writers still, and legitimately, do). *)
 From Coq Require Import NArith List String.
 From SG Require Import State.Fs State.AtomicWrite State.Concurrency
-  State.Proofs_C14 State.Proofs_C14b State.Proofs_C14c State.Proofs_C14d State.Proofs_C14e State.Proofs_C14f.
+  State.Proofs_C14 State.Proofs_C14b State.Proofs_C14c State.Proofs_C14d State.Proofs_C14e State.Proofs_C14f State.LockWait State.Proofs_C14g.
 Import ListNotations.
 Open Scope N_scope.
 
@@ -66,6 +66,23 @@ Theorem C14_finishes_under_any_schedule : forall (sched : list pid) (s : sys) (p
              (finished r' = true \/ (measure (polls s) r' + count_pid p sched <= measure (polls s) r)%nat).
 Proof. exact exec_bound. Qed.
 Print Assumptions C14_finishes_under_any_schedule.
+
+(* ... in wall-clock terms: the polling loop of try_lock_*_with_timeout (State/LockWait.v: elapsed,
+   interval; constant interval as in the code) gives up no earlier than the time-out and strictly
+   before time-out + one poll interval, for every time-out and every interval of at least 1 ms *)
+Theorem C14_lock_wait_within_timeout : forall (timeout interval : N), 1 <= interval ->
+  timeout <= total_wait timeout interval (fun x => x) /\
+  total_wait timeout interval (fun x => x) < timeout + interval.
+Proof. exact total_wait_bounds. Qed.
+Print Assumptions C14_lock_wait_within_timeout.
+
+(* a doubling interval (exponential back-off without a clamp) breaks that bound: with the code's
+   50 ms first interval a 1000 ms time-out is noticed only after 1550 ms *)
+Example C14_doubling_backoff_overshoots :
+  total_wait 1000 lock_poll_interval_ms (N.mul 2) = 1550 /\ 1000 + lock_poll_interval_ms <= 1550 /\
+  total_wait 1000 lock_poll_interval_ms (fun x => x) = 1000 /\ total_wait 200 lock_poll_interval_ms (fun x => x) = 200.
+Proof. vm_compute. repeat split; congruence. Qed.
+Print Assumptions C14_doubling_backoff_overshoots.
 
 (* every snapshot that was reported as recorded is present in the history, at every later
    instant and under every schedule -- for command mixes in which every writer of the file holds
